@@ -212,6 +212,10 @@ type fcore struct {
 	OnAppend func(off eventbus.Offset, ev *eventbus.Event)
 	// OnAppendResult reports what the caller of Append was told: ok, failed, lost-ack, blocked
 	OnAppendResult func(ev *eventbus.Event, outcome string)
+	// OnOp is called once per store operation: after its effect, or (CrashBefore) before it.
+	// The crash model kills the calling incarnation from inside it.
+	OnOp        func()
+	CrashBefore bool
 	// AppendCalls counts calls that reached the decorator (for the no-retry rule)
 	AppendCalls int
 	AppendCtxErrAtReturn []bool
@@ -236,8 +240,21 @@ func (f *fcore) next(kind string) int {
 
 func (f *fcore) fire(kind string) { f.Fired[kind]++ }
 
+func (f *fcore) opBefore() {
+	if f.OnOp != nil && f.CrashBefore {
+		f.OnOp()
+	}
+}
+
+func (f *fcore) opAfter() {
+	if f.OnOp != nil && !f.CrashBefore {
+		f.OnOp()
+	}
+}
+
 func (f *fcore) Append(ctx context.Context, ev *eventbus.Event) (eventbus.Offset, error) {
 	simrt.Yield(siteStoreOp)
+	f.opBefore()
 	if simrt.Dead() {
 		return "", errDeadProcess
 	}
@@ -261,6 +278,7 @@ func (f *fcore) Append(ctx context.Context, ev *eventbus.Event) (eventbus.Offset
 	if err == nil && f.OnAppend != nil {
 		f.OnAppend(off, ev)
 	}
+	f.opAfter()
 	simrt.Yield(siteStoreOp)
 	if err == nil && has(f.plan.LostAckAppend, k) {
 		f.fire("append-lost-ack")
@@ -283,6 +301,7 @@ func (f *fcore) result(ev *eventbus.Event, outcome string) {
 
 func (f *fcore) Read(ctx context.Context, from eventbus.Offset, limit int) ([]*eventbus.StoredEvent, eventbus.Offset, error) {
 	simrt.Yield(siteStoreOp)
+	f.opBefore()
 	if simrt.Dead() {
 		return nil, from, errDeadProcess
 	}
@@ -292,13 +311,18 @@ func (f *fcore) Read(ctx context.Context, from eventbus.Offset, limit int) ([]*e
 		return nil, from, errInjected
 	}
 	evs, next, err := f.inner.Read(ctx, from, limit)
+	f.opAfter()
 	simrt.Yield(siteStoreOp)
+	if simrt.Dead() {
+		return nil, from, errDeadProcess
+	}
 	return evs, next, err
 }
 
 func (f *fcore) ReadStream(ctx context.Context, from eventbus.Offset) iter.Seq2[*eventbus.StoredEvent, error] {
 	return func(yield func(*eventbus.StoredEvent, error) bool) {
 		simrt.Yield(siteStoreOp)
+		f.opBefore()
 		if simrt.Dead() {
 			yield(nil, errDeadProcess)
 			return
@@ -319,6 +343,7 @@ func (f *fcore) ReadStream(ctx context.Context, from eventbus.Offset) iter.Seq2[
 					return
 				}
 			}
+			f.opAfter() // every streamed row counts as a store operation (a crash can fall between two rows)
 			simrt.Yield(siteStoreOp)
 			if simrt.Dead() {
 				yield(nil, errDeadProcess)
@@ -333,6 +358,7 @@ func (f *fcore) ReadStream(ctx context.Context, from eventbus.Offset) iter.Seq2[
 
 func (f *fcore) SaveOffset(ctx context.Context, id string, off eventbus.Offset) error {
 	simrt.Yield(siteStoreOp)
+	f.opBefore()
 	if simrt.Dead() {
 		return errDeadProcess
 	}
@@ -345,6 +371,7 @@ func (f *fcore) SaveOffset(ctx context.Context, id string, off eventbus.Offset) 
 	if err == nil && f.OnSave != nil {
 		f.OnSave(id, off)
 	}
+	f.opAfter()
 	simrt.Yield(siteStoreOp)
 	if err == nil && has(f.plan.LostAckSave, k) {
 		f.fire("save-lost-ack")
@@ -355,6 +382,7 @@ func (f *fcore) SaveOffset(ctx context.Context, id string, off eventbus.Offset) 
 
 func (f *fcore) LoadOffset(ctx context.Context, id string) (eventbus.Offset, error) {
 	simrt.Yield(siteStoreOp)
+	f.opBefore()
 	if simrt.Dead() {
 		return eventbus.OffsetOldest, errDeadProcess
 	}
@@ -364,6 +392,7 @@ func (f *fcore) LoadOffset(ctx context.Context, id string) (eventbus.Offset, err
 		return eventbus.OffsetOldest, errInjected
 	}
 	off, err := f.sub.LoadOffset(ctx, id)
+	f.opAfter()
 	simrt.Yield(siteStoreOp)
 	return off, err
 }
